@@ -43,3 +43,53 @@ def describe_change(before, after):
         if b != a:
             return f"{n} changed" + (f" ({b} -> {a})" if n != "bytes" else "")
     return "changed"
+
+
+def scribble(obj, depth=0):
+    """overwrite every writable array reachable from a RESULT with a pattern (what a caller is free to do with an
+    array that was handed to them); returns the number of arrays written"""
+    n = 0
+    if isinstance(obj, numpy.ndarray):
+        raw = numpy.ndarray.view(obj, numpy.ndarray)
+        if raw.flags.writeable and raw.size:
+            try:
+                if raw.dtype.names:
+                    for name in raw.dtype.names:
+                        raw[name] = 91
+                elif raw.dtype == object:
+                    raw[...] = None
+                else:
+                    raw[...] = 91 if raw.dtype.kind != "b" else True
+                n += 1
+            except Exception:  # noqa: BLE001
+                pass
+    elif isinstance(obj, (list, tuple)) and depth < 4:
+        for x in obj:
+            n += scribble(x, depth + 1)
+    elif isinstance(obj, dict) and depth < 4:
+        for x in obj.values():
+            n += scribble(x, depth + 1)
+    return n
+
+
+def recall(R, op, label, f, got, tags=(), watched=None):
+    """Two consecutive calls must not interact through the result of the first: overwrite `got` (the result of f()),
+    then (a) every watched argument still has its bytes, (b) f() gives again what it gave the first time."""
+    first = snap(got)
+    before = {k: snap(v) for k, v in (watched or {}).items()}
+    if not scribble(got):
+        R.stat("result_not_writable")
+        return
+    R.tr()
+    for k, v in (watched or {}).items():
+        if snap(v) != before[k]:
+            R.fail(op, "result-aliases-argument", f"{label}: writing to the result changed argument {k} ({describe_change(before[k], snap(v))})", tags=list(tags) + ["recall"])
+            return
+    try:
+        again = f()
+    except Exception as err:  # noqa: BLE001
+        R.fail(op, "depends-on-earlier-result", f"{label}: after the caller overwrote the first result the same call raises {type(err).__name__}: {err}", tags=list(tags) + ["recall"])
+        return
+    if snap(again) != first:
+        R.fail(op, "depends-on-earlier-result", f"{label}: after the caller overwrote the first result the same call returns something else "
+               f"({describe_change(first, snap(again))})", tags=list(tags) + ["recall"])
